@@ -5,9 +5,11 @@ import (
 	"fmt"
 	"os"
 	"path/filepath"
+	"sync/atomic"
 	"time"
 
 	"github.com/KevoDB/kevo/pkg/verifhook"
+	"github.com/KevoDB/kevo/pkg/wal"
 
 	"verif/internal/core"
 	"verif/internal/kv"
@@ -38,6 +40,10 @@ func init() {
 func runC12(c *core.Ctx, res *core.Result) {
 	if c.Idx%10 == 9 {
 		c12CloseDuringCompaction(c, res)
+		return
+	}
+	if c.Idx%25 == 7 {
+		c12RetentionDuringRotation(c, res)
 		return
 	}
 	r := c.Rand
@@ -210,4 +216,107 @@ func c12CloseDuringCompaction(c *core.Ctx, res *core.Result) {
 	}
 	res.Sig = core.Sig("close-during-compaction", cfg.String(), nfiles, hit)
 	res.Nontrivial = hit
+}
+
+// c12RetentionDuringRotation: online log retention called on a log handle that is just being rotated away
+// (what a replication primary does when an acknowledgement arrives during a flush). Staged with hook parking:
+// everything is flushed, the handle is taken, a flush is parked right after it has published the next log,
+// retention runs on the old handle, the flush is released. Writes made afterwards go to the new log file and
+// must survive a restart: retention is entitled to remove flushed *older* log files only.
+func c12RetentionDuringRotation(c *core.Ctx, res *core.Result) {
+	r := c.Rand
+	cfg := kv.Cfg{MemTableSize: 32 << 20, MaxMemTables: 4, SyncMode: r.Intn(3), CompactSecs: 3600}
+	dir := filepath.Join(c.Dir, "db")
+	eng, err := kv.Open(dir, cfg)
+	if err != nil {
+		res.Violate("open_error", err.Error(), nil)
+		return
+	}
+	closed := false
+	release := make(chan struct{})
+	var parked, armed atomic.Bool
+	defer func() {
+		verifhook.Set(nil)
+		if !closed {
+			eng.Close()
+		}
+	}()
+	model := kv.NewModel()
+	n := 0
+	put := func(k string) {
+		n++
+		v := []byte(fmt.Sprintf("c%d/%d|", c.Idx, n))
+		if eng.Put([]byte(k), v) == nil {
+			model.Put([]byte(k), v)
+		}
+	}
+	for i := 0; i < r.Range(2, 8); i++ {
+		put(fmt.Sprintf("k%02d", i))
+	}
+	eng.FlushImMemTables()
+	put("in-the-live-file")
+	w := eng.GetWAL()
+	site := []string{"storage.rotate.after_swap", "storage.rotate.after_oldflush", "storage.rotate.after_newwal"}[r.Intn(3)]
+	verifhook.Set(func(s string) {
+		if armed.Load() && s == site && parked.CompareAndSwap(false, true) {
+			<-release
+		}
+	})
+	armed.Store(true)
+	done := make(chan struct{})
+	go func() { eng.FlushImMemTables(); close(done) }()
+	for i := 0; i < 5000 && !parked.Load(); i++ {
+		time.Sleep(time.Millisecond)
+	}
+	if !parked.Load() {
+		close(release)
+		<-done
+		res.Inconclusive = "the flush never reached " + site
+		return
+	}
+	rc := wal.WALRetentionConfig{}
+	policy := ""
+	switch r.Intn(3) {
+	case 0:
+		rc.MaxFileCount, policy = 1, "MaxFileCount=1"
+	case 1:
+		rc.MinSequenceKeep, policy = w.GetNextSequence(), "MinSequenceKeep=next sequence (everything acknowledged)"
+	case 2:
+		rc.MaxFileCount, policy = 2, "MaxFileCount=2"
+	}
+	deleted, rerr := w.ManageRetention(rc)
+	close(release)
+	<-done
+	armed.Store(false)
+	verifhook.Set(nil)
+	// writes after the retention
+	put("after-retention-1")
+	if k := fmt.Sprintf("k%02d", 0); eng.Delete([]byte(k)) == nil {
+		model.Del([]byte(k))
+	}
+	put("after-retention-2")
+	eng.Close()
+	closed = true
+	res.Count("retention_during_rotation_scenarios", 1)
+	res.Count("log_files_retired_online", int64(deleted))
+	feat := map[string]string{"kind": "retention_during_rotation", "parked_at": site}
+	e2, err := kv.Open(dir, cfg)
+	if err != nil {
+		res.Violate("open_error", "reopen: "+err.Error(), feat)
+		return
+	}
+	defer e2.Close()
+	it, err := e2.GetIterator()
+	if err != nil {
+		res.Inconclusive = err.Error()
+		return
+	}
+	it.SeekToFirst()
+	if msg := kv.CheckScan(kv.Drain(it, 1<<20), model, nil, nil, nil); msg != "" {
+		res.Violate("retention_lost_live_log", fmt.Sprintf("config %s: a flush was parked at %s (next log published, old one not yet closed) while WAL.ManageRetention{%s} ran on the old log handle (deleted %d files, err %v); writes made afterwards were acknowledged; after a clean close and restart: %s",
+			cfg, site, policy, deleted, rerr, msg), feat)
+		return
+	}
+	res.Sig = core.Sig("retrot", site, policy, cfg.SyncMode)
+	res.Nontrivial = true
 }
